@@ -84,7 +84,10 @@ def make_case(rng, tier, damage, max_damage=4):
             "via_parent": rng.random() < 0.5, "damage": []}
     if source.startswith("ref") and version in (1, 3) and not single and rng.random() < 0.3:
         case["attrs"] = {rel: rng.choice(["x", "h", "xh"]) for rel, _ in files if rng.random() < 0.5}
-    if rng.random() < PARENT_LIKE_NAME_P:
+    if not damage and rng.random() < PARENT_LIKE_NAME_P:
+        # only for intact content (C05 root-or-parent): with damage, which of two same-named
+        # nested directories "is" the payload has no right answer (root_or_parent's side
+        # conditions), so C04/C16 address damaged payloads by an unambiguous path
         case["parent_like_name"] = True
     if version == 1 and source == "ref" and not single and rng.random() < 0.5:
         order = [rel for rel, _ in files]
